@@ -35,6 +35,17 @@ def load_contracts(prop):
     return mod
 
 
+def all_finding_obligations():
+    out = []
+    path = os.path.join(HERE, 'known_findings.txt')
+    if os.path.exists(path):
+        for raw in open(path):
+            m = re.match(r'finding: property=\S+ id=\S+ obligation=(\S+) ', raw.strip())
+            if m:
+                out.append(m.group(1))
+    return out
+
+
 def load_findings(prop):
     """known_findings.txt ->  {'qualname/obligation': [(id, witness)]}, list of lines"""
     out, lines, fixed = {}, [], []
@@ -206,6 +217,11 @@ def replay(prop, mod, func, ob, replay_dir, search=False):
         'detail': ob['detail'], 'source_file': func['file'], 'source_sha256': func['sha256'],
         'source_span': func['span'], 'repo': REPO, 'replayer': rp,
         'rerun': './check %s --replay %s' % (prop, path),
+        # obligations of this function that are recorded findings: a replayer that runs scenario groups may skip theirs
+        # (and says so: "known findings skipped"), so that the cross-check still reports anything else it finds
+        # (findings recorded under any property: a defect of this function is known whichever check runs the replayer)
+        'known_finding_obligations': [o for o in all_finding_obligations()
+                                      if o.split('/')[0].split('@')[0] == func['qualname'].split('@')[0]],
     }
     for it in _G.get('items', []):
         if isinstance(it, Contract) and it.qualname == func['qualname'].split('@')[0]:
@@ -264,6 +280,7 @@ def main(argv):
     mod = load_contracts(prop)
     variants = getattr(mod, 'VARIANTS', [None])
     _, finding_lines, fixed_lines = load_findings(prop)
+    _G['finding_lines'] = finding_lines
     only = os.environ.get('PYVC_ONLY')
     tasks, all_items = [], []
     for v in variants:
@@ -480,7 +497,12 @@ def main(argv):
             known_f = [f for f in finding_lines if f['obligation'].split('/')[0].split('@')[0] == qn]
             path, reproduced = replay(prop, mod, func, ob, replay_dir, search=True)
             bounded_runs.append({'replayer': rp, 'function': qn, 'failing_input_found': bool(reproduced), 'replay': path})
-            if reproduced and not known_f:
+            skipped = False
+            try:
+                skipped = 'known findings skipped' in json.load(open(path)).get('replay_output', '')
+            except Exception:
+                pass
+            if reproduced and (not known_f or skipped):
                 viol_lines.append('VIOLATION property=%s replay=%s obligation=%s/thorough.bounded_cross_check' % (prop, path, qn))
     known_replays = {}
     for fid, (r, o) in known_first.items():
